@@ -128,16 +128,21 @@ Inductive rres :=
 | RMsg (ty : Z) (bs : list Z)         (* handler called once, Ok(1) *)
 | RErr (e : err).                     (* UnableToKeepUp = UnableToKeepUpWithBroadcastBuffer, InsufficientCapacity = BufferTooSmall *)
 
-(* CopyBroadcastReceiver::receive.  Panic also stands for the poisoned mutex afterwards. *)
-Definition receive (m : mode) (w : vwidth) (cap : Z) (mm : mem) (r : rx) : outcome (rx * rres) :=
+(* CopyBroadcastReceiver::receive.  Panic also stands for the poisoned mutex afterwards.
+   hv = false: the code as found (length and type used as read);
+   hv = true: the repaired code (fixes/C08-copy-receiver-validate-header.diff): both header words are
+   read, then validate() is called before they are used as a copy length and an event code. *)
+Definition receive (m : mode) (w : vwidth) (hv : bool) (cap : Z) (mm : mem) (r : rx) : outcome (rx * rres) :=
   x <- receive_next m w cap mm r ;;
   let '(r1, av) := x in
   if negb av then Ok (r1, RNone) else
   if negb (lapped r =? lapped r1) then Ok (r1, RErr UnableToKeepUp) else
   let ro := record_offset r1 in
   len <- sub32 m (get32 mm ro) HL ;;
-  if len >? SCRATCH then Ok (r1, RErr InsufficientCapacity) else
   let ty := get32 mm (ro + 4) in
+  hok <- (if hv then do_validate m w cap mm (cursor r1) else Ok true) ;;
+  if negb hok then Ok (r1, RErr UnableToKeepUp) else
+  if len >? SCRATCH then Ok (r1, RErr InsufficientCapacity) else
   if negb (known_type ty) then Panic else
   (* copy_from(0, buffer, ro + 8, len): two bounds checks `idx + len <= capacity`, then copy_nonoverlapping(len as usize) *)
   s <- add32 m (ro + HL) len ;;
@@ -183,7 +188,7 @@ Definition sparse_words (cap : Z) (mm : mem) : list (Z * list Z) :=
 Record sys := mkSys { smem : mem; srx : rx }.
 
 (* one operation; None = the process died (panic poisons the receiver mutex / crash) *)
-Definition step (m : mode) (w : vwidth) (cap : Z) (s : sys) (o : op) : option sys * obs :=
+Definition step (m : mode) (w : vwidth) (hv : bool) (cap : Z) (s : sys) (o : op) : option sys * obs :=
   match o with
   | Transmit ty bs =>
       match transmit m cap (smem s) ty bs with
@@ -193,7 +198,7 @@ Definition step (m : mode) (w : vwidth) (cap : Z) (s : sys) (o : op) : option sy
       | _ => (None, OPanic)
       end
   | Receive =>
-      match receive m w cap (smem s) (srx s) with
+      match receive m w hv cap (smem s) (srx s) with
       | Ok (r', res) => (Some {| smem := smem s; srx := r' |}, Rx (lapped r') res)
       | Crash => (None, OCrash)
       | _ => (None, OPanic)
@@ -201,12 +206,12 @@ Definition step (m : mode) (w : vwidth) (cap : Z) (s : sys) (o : op) : option sy
   | Dump => (Some s, Words (sparse_words cap (smem s)))
   end.
 
-Fixpoint run (m : mode) (w : vwidth) (cap : Z) (s : sys) (h : list op) : list obs :=
+Fixpoint run (m : mode) (w : vwidth) (hv : bool) (cap : Z) (s : sys) (h : list op) : list obs :=
   match h with
   | [] => []
   | o :: rest =>
-      match step m w cap s o with
-      | (Some s', ob) => ob :: run m w cap s' rest
+      match step m w hv cap s o with
+      | (Some s', ob) => ob :: run m w hv cap s' rest
       | (None, ob) => [ob]
       end
   end.
@@ -226,5 +231,5 @@ Definition init_sys (m : mode) (cap c0 : Z) (pre : list (Z * list Z)) : sys :=
   let mm := pre_run m cap (init_mem cap c0) pre in
   {| smem := mm; srx := rx_new cap mm |}.
 
-Definition run_history (m : mode) (w : vwidth) (cap c0 : Z) (pre : list (Z * list Z)) (h : list op) : list obs :=
-  run m w cap (init_sys m cap c0 pre) h.
+Definition run_history (m : mode) (w : vwidth) (hv : bool) (cap c0 : Z) (pre : list (Z * list Z)) (h : list op) : list obs :=
+  run m w hv cap (init_sys m cap c0 pre) h.
